@@ -81,9 +81,7 @@ def Server.ages (s : Server) : List (Bool × Bool) := s.rrdp.deltas.map (fun _ =
 def Server.update (s : Server) (rnd : Nat) : Server × UpdRet :=
   if !s.rrdp.hasStaged then (s, .none)
   else if s.cfg.neverDue then (s, .later)
-  else match findTruncateAge s.cfg.minNr s.cfg.maxNr s.ages with
-    | none => (s, .panic)
-    | some t => ({ s with rrdp := s.rrdp.applyUpdated t rnd }, .done)
+  else ({ s with rrdp := s.rrdp.applyUpdated (findTruncateAge s.cfg.minNr s.cfg.maxNr s.ages) rnd }, .done)
 
 /-- `rrdp_session_reset` (state part). -/
 def Server.reset (s : Server) (session rnd : Nat) : Server :=
